@@ -840,7 +840,8 @@ def rule_samples1(ctx: Ctx) -> RuleResult:
         if isinstance(n, (ast.ListComp, ast.GeneratorExp)) and len(n.generators) == 1 and isinstance(n.elt, ast.Call):
             if conv in [t for t in ctx.cg.resolve_call(gen, gen.module, n.elt) if isinstance(t, FuncInfo)]:
                 g0 = n.generators[0]
-                ok = norm(g0.iter) == vararg and not g0.ifs and norm(n.elt.args[0]) == norm(g0.target)
+                ok = norm(g0.iter) in (vararg, f"list({vararg})", f"tuple({vararg})") and not g0.ifs and \
+                    norm(n.elt.args[0]) == norm(g0.target)
                 why = "" if ok else f"iterates `{norm(g0.iter)}` with filter={bool(g0.ifs)}: samples can be dropped (Python equality " \
                                     f"treats 1 == 1.0 == True, so 'duplicates' are not duplicates for type inference)"
     rr.ob(gen.relpath, gen.qualname, "[self._convert(data) for data in data_variants]", "each sample is converted, none is skipped",
